@@ -12,6 +12,10 @@ CONSTANTS
     MaxQ = 2
     InsertFirst = TRUE
     WithHold = TRUE
+    MaxLen = 9
+    BigOn = 3
+    ErrReadNeedsReply = TRUE
+    WithFault = FALSE
     EmptyOn = 2
     Hist = FALSE
 INVARIANT Inv
